@@ -4,6 +4,7 @@ import hmac
 import logging
 import math
 import os
+import struct
 import time
 from collections import deque
 from collections.abc import Callable, Iterator
@@ -437,7 +438,12 @@ def parse_packet(data: bytes) -> tuple[int, int, int, list[Chunk]]:
         chunk_body = data[pos + SCTP_CHUNK_HEADER_LENGTH : pos + chunk_length]
         chunk_cls = CHUNK_TYPES.get(chunk_type)
         if chunk_cls:
-            chunks.append(chunk_cls(flags=chunk_flags, body=chunk_body))
+            try:
+                chunks.append(chunk_cls(flags=chunk_flags, body=chunk_body))
+            except struct.error as exc:
+                raise ValueError(
+                    f"SCTP chunk of type {chunk_type} is truncated"
+                ) from exc
         pos += chunk_length + padl(chunk_length)
     return source_port, destination_port, verification_tag, chunks
 
